@@ -94,4 +94,8 @@ IdOf(ix) == "p" \o ToString(ix)
 EmitCase == st.status # "run" =>
               /\ PrintT(ToJson([id |-> IdOf(p), kind |-> "render", prog |-> ProgOf(p), env |-> <<>>]))
               /\ PrintT(ToJson([id |-> "w" \o IdOf(p), kind |-> "render", prog |-> Wrapped(p), env |-> <<>>]))
+              \* the same program over outer bindings of the names the loops shadow, held as Drops; the harness puts
+              \* its probe tag around every loop: after the loop the name is bound to the very value it was bound to before
+              /\ PrintT(ToJson([id |-> "e" \o IdOf(p), kind |-> "render", prog |-> ProgOf(p), snaploops |-> TRUE,
+                                env |-> << <<X, IntV(5)>>, <<Y, Str(<<113>>)>> >>, repr |-> [x |-> "drop", y |-> "drop"]]))
 =============================================================================
